@@ -106,30 +106,37 @@ class OperatorMonitor:
 class AnchorCoverage:
     """
     Which lines of the anchor files did the workload reach? sys.monitoring LINE events; the callback returns DISABLE, so
-    each line costs one event. Informational: verdicts never depend on it.
+    each line costs one event. Informational: verdicts never depend on it (it shows which parts of the anchored code the
+    monitors have actually seen executing, and which they have not).
     """
 
     TOOL_ID = 3
 
     def __init__(self, files: List[str]):
-        self.files = {os.path.join(repo.SRC, "ahbicht", f) if not os.path.isabs(f) else f for f in files}
+        self.files = {}
+        for f in files:
+            path = f if os.path.isabs(f) else os.path.join(repo.REPO, f)
+            if path.endswith(".py") and os.path.exists(path):
+                self.files[os.path.realpath(path)] = f
         self.lines: Dict[str, set] = {}
         self.active = False
 
     def __enter__(self):
         mon = getattr(sys, "monitoring", None)
-        if mon is None:
+        if mon is None or not self.files:
             return self
         try:
             mon.use_tool_id(self.TOOL_ID, "vf-anchor-coverage")
         except ValueError:
             return self
         self.active = True
+        files = self.files
+        lines = self.lines
 
         def on_line(code, line):
             fn = code.co_filename
-            if fn in self.files:
-                self.lines.setdefault(fn, set()).add(line)
+            if fn in files:
+                lines.setdefault(fn, set()).add(line)
             return mon.DISABLE
 
         mon.register_callback(self.TOOL_ID, mon.events.LINE, on_line)
@@ -142,10 +149,50 @@ class AnchorCoverage:
             mon.set_events(self.TOOL_ID, 0)
             mon.register_callback(self.TOOL_ID, mon.events.LINE, None)
             mon.free_tool_id(self.TOOL_ID)
+            self.active = False
         return False
 
-    def summary(self) -> Dict[str, int]:
-        return {os.path.relpath(fn, repo.SRC): len(lines) for fn, lines in sorted(self.lines.items())}
+    @staticmethod
+    def executable_lines(path: str) -> set:
+        """line numbers that carry code (from the compiled module's code objects), excluding docstring-only lines"""
+        with open(path, encoding="utf-8") as f:
+            src = f.read()
+        out = set()
+
+        def walk(code):
+            for _start, _end, line in code.co_lines():
+                if line is not None:
+                    out.add(line)
+            for const in code.co_consts:
+                if hasattr(const, "co_lines"):
+                    walk(const)
+
+        walk(compile(src, path, "exec"))
+        return out
+
+    def summary(self) -> Dict[str, Any]:
+        """{anchor file: {"reached_in_functions": n, "lines_in_functions": m, "not_reached": [line numbers]}}; module level lines
+        (imports, definitions) run at import time before the monitor starts and are left out"""
+        out = {}
+        for path, rel in sorted(self.files.items(), key=lambda kv: kv[1]):
+            with open(path, encoding="utf-8") as f:
+                src = f.read()
+            body = set()
+
+            def walk(code, inside):
+                for const in code.co_consts:
+                    if hasattr(const, "co_lines"):
+                        if const.co_flags & 0x1:  # CO_OPTIMIZED: a function / method / lambda / comprehension body, not a class body
+                            for _s, _e, line in const.co_lines():
+                                if line is not None and line != const.co_firstlineno:
+                                    body.add(line)
+                        walk(const, True)
+
+            walk(compile(src, path, "exec"), False)
+            reached = self.lines.get(path, set()) & body
+            missing = sorted(body - reached)
+            out[rel] = {"lines_in_functions": len(body), "reached": len(reached), "not_reached": missing[:60]}
+        return out
 
 
 class PairingMonitor:
